@@ -85,19 +85,24 @@ def _strata(a: Vec, b):
     return s
 
 
-def _tiny(x, scale):
-    return abs(x) < mpf(10) ** -30 * scale
+def _tiny(x, scale, margin):
+    return abs(x) < margin * scale
 
 
-def result_representable(cart, system, scale):
-    """Is the exact (reference) result representable in the system it is returned in?"""
+MARGIN_L1 = mpf(10) ** -30
+MARGIN_L2 = mpf(10) ** -6
+
+
+def result_representable(cart, system, scale, margin=MARGIN_L1):
+    """Is the exact (reference) result representable in the system it is returned in
+    (with a margin, so that a result sitting on the boundary up to rounding is not decided)?"""
     if cart is None:
         return False
     if len(system) > 1 and system[1] in ("theta", "eta"):
-        if _tiny(G.hyp(cart[0], cart[1]), scale):
+        if _tiny(G.hyp(cart[0], cart[1]), scale, margin):
             return False
     if len(system) > 2 and system[2] == "tau":
-        if cart[3] < 0 or _tiny(cart[3], scale):
+        if cart[3] < 0 or _tiny(cart[3], scale, margin):
             return False
     return True
 
